@@ -1238,7 +1238,7 @@ def main():
     seed = int(os.environ.get("VERIF_SEED", "20260930"))
     tier = "thorough" if args.tier == "thorough" else "quick"
     chk = Check(args.prop, tier, seed)
-    ok, log = engine.ensure_built(clean=(tier == "thorough" and os.environ.get("VERIF_CLEAN", "1") == "1"))
+    ok, log = engine.ensure_built(clean=False)
     if not ok:
         chk.proof = {"file": "coq (build)", "theorems": [], "axioms": {}, "ok": False, "log": log}
         sys.exit(chk.finish())
